@@ -59,7 +59,10 @@ RULE_ADDED = (
               "ary user, a PIN file of one's own in a directory one cannot write to. "
               ' '
               'Round 14: the PIN file touched, rewritten, replaced, created or removed by someb'
-              'ody else while a change is pending on a running manager. ')
+              'ody else while a change is pending on a running manager. '
+              ' '
+              'Round 17: a uiHeartbeat after which the device is locked in the bootloader, with'
+              ' a PIN change pending; running-manager histories on SGX. ')
 RULE = RULE + " " + RULE_ADDED.strip()
 ASSUMPTIONS = [
     "simulated device keeps its PIN in a state file written before it acknowledges (its NVM)",
@@ -274,6 +277,27 @@ def running_phase(s, dev, step, platform, path=None):
                                                 bool(step.get("v1"))).items())
                 if k_ not in ("version", "uiHeartbeat")]
         req = pool[step["request_kind"] % len(pool)]
+    if step["running"] == "uihb":
+        # no link failure at all: a uiHeartbeat after which the device shows up locked in
+        # the bootloader instead of back in the signer.  Whatever the manager does about
+        # that, a PIN change it attempts stops it
+        from ..gen import der as _der
+        dev.uihb = {"signature": _der.make_sig(random.Random(7), "normal")[0],
+                    "message": b"HSM:UI:HB:" + bytes(40), "tweak": bytes(32), "pubkey": bytes(65)}
+        dev.cfg["hb_back_mode"] = MODE_BOOTLOADER
+        r1, e1, _ = s.request({"command": "uiHeartbeat", "version": 5, "udValue": "22" * 32})
+        if isinstance(e1, RequestHandlerShutdown):
+            return "interrupt"
+        if e1 is not None:
+            return "other:%s" % type(e1).__name__
+        dev.cfg["hb_back_mode"] = None
+        for _ in range(2):
+            r, e, _ = s.request(req)
+            if isinstance(e, RequestHandlerShutdown):
+                return "interrupt"
+            if e is not None:
+                return "other:%s" % type(e).__name__
+        return "served"
     s.bus.arm({0: Fault(step["running"])})
     r1, e1, _ = s.request(req)
     s.bus.arm({})
@@ -576,6 +600,12 @@ def gen_histories(spec, tmpdir):
                     {"platform": platform, "force": force, "running": lk, "client_gone": True,
                      "v1": True},
                     {"platform": platform, "v1": True}]})
+            if platform == "ledger":
+                # manager running with the change pending; a uiHeartbeat after which the
+                # device is found locked in the bootloader
+                cases.append({"platform": platform, "start": start, "steps": [
+                    {"platform": platform, "force": force, "running": "uihb"},
+                    {"platform": platform}]})
             # fault-free change followed by restarts (incl. another forced change)
             for link in (False, True):
                 cases.append({"platform": platform, "start": start, "link": link, "steps": [
